@@ -159,6 +159,9 @@ func (fr *Frame) findLoops() {
 		}
 		if fr.con != nil {
 			li.spec = fr.con.Loops[li.ord]
+			if li.spec == nil {
+				li.spec = fr.con.Loops[0] // "loop * ..." wildcard
+			}
 		}
 		fr.loops[h] = li
 	}
@@ -465,13 +468,16 @@ func (fr *Frame) enterLoop(li *loopInfo, st *State) *State {
 	if !fr.top {
 		fail("loop in inlined function %s", fr.fn)
 	}
-	if li.spec == nil || len(li.spec.Invariants) == 0 {
-		fail("loop %d of %s has no invariant", li.ord, g.fnKey)
+	if li.spec == nil {
+		// no clause for this loop: the weakest invariant ("true" plus the function's frame) is used; everything the
+		// loop may modify is unknown afterwards
+		li.spec = &LoopSpec{}
+		g.note(fmt.Sprintf("loop %d of %s has no invariant: 'true' is used", li.ord, g.fnKey))
 	}
 	fr.analyseLoopMods(li)
 	// 1. invariants hold on entry
 	for i, inv := range li.spec.Invariants {
-		t := fr.evalBool(inv.Expr, &specCtx{fr: fr, st: st, kind: ctxInv})
+		t := fr.evalBool(inv.Expr, &specCtx{fr: fr, st: st, old: fr.entry, kind: ctxInv})
 		g.oblige("inv0", fmt.Sprintf("L%d.%d", li.ord, i+1), st.path, t, "loop "+fmt.Sprint(li.ord)+" invariant (entry): "+inv.Text)
 	}
 	// 2. havoc modified state
@@ -514,13 +520,17 @@ func (fr *Frame) enterLoop(li *loopInfo, st *State) *State {
 			ns.heap.set(k, g.declare("lhp", g.heapSorts[k]))
 		}
 	}
-	// 3. assume invariants
+	// 3. the function's frame (assigns clause) is an implicit loop invariant
+	if fr.con != nil && fr.con.HasAssigns {
+		g.assumeUnder(ns.path, fr.frameFormula(ns))
+	}
+	// 4. assume invariants
 	for _, inv := range li.spec.Invariants {
-		t := fr.evalBool(inv.Expr, &specCtx{fr: fr, st: ns, kind: ctxInv})
+		t := fr.evalBool(inv.Expr, &specCtx{fr: fr, st: ns, old: fr.entry, kind: ctxInv})
 		g.assumeUnder(ns.path, t)
 	}
 	if li.spec.Decreases != nil {
-		m := fr.evalMath(li.spec.Decreases.Expr, &specCtx{fr: fr, st: ns, kind: ctxInv})
+		m := fr.evalMath(li.spec.Decreases.Expr, &specCtx{fr: fr, st: ns, old: fr.entry, kind: ctxInv})
 		li.measure = g.define("meas", g.mathSort(), m)
 	}
 	li.hdrSt = ns
@@ -529,12 +539,15 @@ func (fr *Frame) enterLoop(li *loopInfo, st *State) *State {
 
 func (fr *Frame) closeLoop(li *loopInfo, st *State) {
 	g := fr.g
+	if fr.con != nil && fr.con.HasAssigns {
+		g.oblige("frame", fmt.Sprintf("L%d", li.ord), st.path, fr.frameFormula(st), "assigns clause holds after every loop iteration")
+	}
 	for i, inv := range li.spec.Invariants {
-		t := fr.evalBool(inv.Expr, &specCtx{fr: fr, st: st, kind: ctxInv})
+		t := fr.evalBool(inv.Expr, &specCtx{fr: fr, st: st, old: fr.entry, kind: ctxInv})
 		g.oblige("inv", fmt.Sprintf("L%d.%d", li.ord, i+1), st.path, t, "loop "+fmt.Sprint(li.ord)+" invariant (preserved): "+inv.Text)
 	}
 	if li.spec.Decreases != nil {
-		m := fr.evalMath(li.spec.Decreases.Expr, &specCtx{fr: fr, st: st, kind: ctxInv})
+		m := fr.evalMath(li.spec.Decreases.Expr, &specCtx{fr: fr, st: st, old: fr.entry, kind: ctxInv})
 		zero := g.mathConst(bigZero)
 		goal := and(g.mathBin(">=", li.measure, zero), g.mathBin("<", m, li.measure))
 		g.oblige("dec", fmt.Sprintf("L%d", li.ord), st.path, goal, "loop "+fmt.Sprint(li.ord)+" decreases: "+li.spec.Decreases.Text)
